@@ -402,7 +402,11 @@ func (ego *atFloat) serialize() string {
 	if abs >= math.Pow10(6) || (abs > 0 && abs <= math.Pow10(-6)) {
 		return strconv.FormatFloat(val, 'e', -1, 64)
 	}
-	return strconv.FormatFloat(val, 'f', -1, 64)
+	result := strconv.FormatFloat(val, 'f', -1, 64)
+	if !strings.Contains(result, ".") {
+		result += ".0"
+	}
+	return result
 }
 
 /*
